@@ -32,6 +32,17 @@
     construction in snap_form, snap_form_default_reseat, offset_form, bpm_list; construction_completes.<construction>;
     tied_changes_same_for_every_construction.
 
+`engine_two_snapper_grids`
+    Two grids at once (dimension 18): the map's own snapper (`TimingMap.snapper`, constructor argument or field) and the snapper handed
+    to `snaps()` / `beats()`, each the default, coarser (complete sets 1..k) or finer (1/120 .. 1/192), tempo changes on positions only
+    one of the two grids allows.  A query time "lies on the snap grid" when BOTH its distance from the tempo change in force and its
+    position in the measure are fractions the caller's snapper allows (so the clause does not depend on where the grid is anchored).
+    Clauses: ms_to_position_callers_snapper, grid_time_round_trip_callers_snapper, cumulative_beats_callers_snapper,
+    position_to_ms_own_snapper, offgrid_time_round_trip_callers_snapper (caller's grid at least as fine as 1/96), callers_snapper_completes,
+    callers_snapper_construction_completes; class of its own grid_time_round_trip_change_off_map_grid (a change on a position the MAP's
+    grid cannot express, e.g. k + 1/192 with the default map snapper: only ms -> position -> ms is asserted there, and not for times
+    less than two grid steps in front of such a change); each with .<construction> in offset_form, bpm_list, snap_form.
+
 `snapper_divisions_and_values`
     Snapper(divisions) for division sets of every shape (1..k complete in any order, single divisions, sparse sets,
     the default, list / tuple / range / numpy array) and the module function `snap(value, divisions)`, on values
@@ -211,6 +222,7 @@ def gen_engine_case(rng):
         # played at double speed (bpm * 2, times / 2), then a row appended
         shift=rng.choice(SHIFTS_INT if num == "int" else SHIFTS_FLOAT),
         history=rng.random() < 0.6,
+        rows_extra=rng.random() < 0.5,
     )
 
 
@@ -422,7 +434,11 @@ def run_engine_case(case):
 
     def bpm_list():
         L, I = _list_class(case["list_class"])
-        rows = [dict(offset=number(times_of[i]), bpm=number(changes[i][3]), metronome=number(changes[i][2], True)) for i in order]
+        extra = {}
+        if case.get("rows_extra") and case["list_class"] == "osu":
+            # every other column of the row non-default and different from bpm / metronome / offset and from each other
+            extra = dict(sample_set_index=11, volume=77, kiai=True)
+        rows = [dict(offset=number(times_of[i]), bpm=number(changes[i][3]), metronome=number(changes[i][2], True), **(dict(extra, sample_set=2 if changes[i][2] == 3 else 3) if extra else {})) for i in order]
         lst = L.from_dict(rows) if case["rows_via"] == "from_dict" else L([I(**r) for r in rows])
         if case["labels"] != "default":
             lst.df.index = _labels(case["labels"], len(rows))  # labels as sorted() / a filter leave them
@@ -538,7 +554,7 @@ def engine_tempo_list_dimensions(rep):
         "a third on measure lines with one metronome 1..8, a third anywhere on the 1/48 grid with one metronome; bpm 7.5..1200 incl. 123.456789 / 139.86013986013984; a quarter of the lists with python ints, "
         f"a quarter with numpy scalars; initial offset from {list(INIT_FLOAT)}; list handed over in time order / shuffled / reversed; 0, 1, 2, 3, 5 or 8 queries (+ duplicates, shuffled; list / tuple / numpy array): 25% exactly on a change, "
         "7% at position 0, 10% 50..5000 measures behind the last change, the others p/q beats with q <= 96; constructions: from_bpm_changes_snap(reseat=False) and (all on measure lines, no twins) the default, "
-        f"from_bpm_changes_offset, BpmList.to_timing_map() of {list(LIST_CLASSES)} from items / from_dict with default, reversed, gappy, permuted row labels; second query set on the same map; another map built and queried in between; a change appended to the offset-form map's list, then queried; queries on a change on a measure line labelled with any metronome 1..8; "
+        f"from_bpm_changes_offset, BpmList.to_timing_map() of {list(LIST_CLASSES)} from items / from_dict with default, reversed, gappy, permuted row labels; second query set on the same map; another map built and queried in between; a change appended to the offset-form map's list, then queried; queries on a change on a measure line labelled with any metronome 1..8; osu rows in half of the lists with every other column (sample set, sample index, volume, kiai) non-default and distinct; "
         f"in 60% call - change - call again on the same objects: every change of the position-form map moved in place by a shift from {list(SHIFTS_FLOAT)} ms, the BpmList edited through its properties (offset += shift; bpm *= 2 and offset /= 2; a row appended) with to_timing_map() after each edit"
     )
     rep.rule = "a case is one (tempo list, listing order, query multiset); non-trivial with >= 2 changes and >= 1 query"
@@ -562,11 +578,315 @@ def _replay_engine(case, what):
     return (bool(hit), hit[0] if hit else "passes")
 
 
+# ============================================================================= snappers other than the default one (two grids at once)
+
+DEFAULT_LISTED = (1, 2, 3, 4, 5, 6, 7, 8, 9, 12, 16, 32, 64, 96)  # the documented default divisions
+# complete sets 1..k: every fraction with a denominator <= k is allowed, whatever the reading of `divisions`
+GRIDS_COARSE = ([1, 2, 3, 4], [4, 3, 2, 1], [1, 2, 3], [1, 2, 3, 4, 5, 6], list(range(1, 9)), list(range(12, 0, -1)), list(range(1, 17)), list(range(1, 25)))
+# single / sparse fine sets: only multiples of 1/d, d listed, are used (allowed under any reading)
+GRIDS_FINE = ([192], [128], [144], [120], [64, 192], [96, 192], list(range(1, 129)))
+GRID_BPM = (60.0, 90.0, 120.0, 150.0, 177.5, 200.0, 333.0, 30.0, 999.5, 123.456789, 89.999)
+
+
+def _on(divs, x):
+    """x (beats) lies on the grid of the listed divisions: its fraction of a beat is j/d for a listed d"""
+    return any((Fraction(x) * d).denominator == 1 for d in divs)
+
+
+def _fr(rng, divs):
+    d = rng.choice(list(divs))
+    return Fraction(rng.randrange(0, d), d)
+
+
+def gen_grid_case(rng):
+    """A tempo list given in ms + the map's own snapper M (TimingMap.snapper; default Snapper()) + the snapper S handed to snaps() /
+    beats().  Every tempo change lies a distance from the change before it that M allows (so the map itself can say where it is) -
+    but for the class `off_map_grid`, where a change lies on S's grid only - and in half of the later changes on a position S does NOT
+    allow.  Queries: times whose distance from the tempo change in force AND whose position in the measure are both fractions S allows
+    (the time 'lies on the snap grid' however the grid is anchored)."""
+    r = rng.random()
+    if r < 0.35:
+        m_divs, s_divs = None, list(rng.choice(GRIDS_COARSE))
+    elif r < 0.6:
+        m_divs, s_divs = None, list(rng.choice(GRIDS_FINE))
+    elif r < 0.75:
+        m_divs, s_divs = list(rng.choice(GRIDS_COARSE + GRIDS_FINE)), None
+    elif r < 0.9:
+        m_divs, s_divs = list(rng.choice(GRIDS_COARSE + GRIDS_FINE)), list(rng.choice(GRIDS_COARSE + GRIDS_FINE))
+    else:
+        m_divs = list(rng.choice(GRIDS_COARSE + GRIDS_FINE))
+        s_divs = list(m_divs)
+    M = m_divs or DEFAULT_LISTED
+    S = s_divs or DEFAULT_LISTED
+    metro = rng.randrange(1, 9)
+    n = rng.choice((1, 2, 2, 3, 3, 4))
+    pos = [Fraction(0)]
+    off_map_grid = False
+    want_off = rng.random() < 0.25
+    for _ in range(n - 1):
+        whole = rng.randrange(0, 3 * metro + 1)
+        f = None
+        if want_off:
+            for _ in range(20):
+                c = _fr(rng, S)
+                if not _on(M, c):
+                    f = c
+                    break
+        elif rng.random() < 0.6:
+            # a position a - q with a, q on S's grid: the change itself is (mostly) NOT on S's grid, times q after it are
+            for _ in range(30):
+                c = (_fr(rng, S) - _fr(rng, S) - pos[-1]) % 1
+                if _on(M, c) and not _on(S, pos[-1] + c):
+                    f = c
+                    break
+        if f is None:
+            f = _fr(rng, M)
+        if whole + f == 0:
+            whole = 1
+        if not _on(M, f):
+            off_map_grid = True
+        pos.append(pos[-1] + whole + f)
+    bpms, prev = [], None
+    for _ in range(n):
+        prev = rng.choice([b for b in GRID_BPM if b != prev])
+        bpms.append(prev)
+    queries = []
+    for k in range(n):
+        length = None if k == n - 1 else pos[k + 1] - pos[k]
+        if _on(S, pos[k]) and rng.random() < 0.5:
+            queries.append([k, "0"])
+        kept = 0
+        for _ in range(14):
+            if kept >= 3:
+                break
+            span = 3 * metro if length is None else int(length) + 1
+            rel = rng.randrange(0, span) + _fr(rng, S)
+            if length is None and rng.random() < 0.1:
+                rel += metro * rng.choice((50, 1000, 5000))
+            if length is not None and rel >= length:
+                continue
+            if _on(S, pos[k] + rel):
+                queries.append([k, str(rel)])
+                kept += 1
+    if queries and rng.random() < 0.6:
+        queries += [list(q) for q in rng.sample(queries, min(2, len(queries)))]
+    rng.shuffle(queries)
+    order = list(range(n))
+    if rng.random() < 0.5:
+        rng.shuffle(order)
+    return dict(
+        map_divisions=m_divs,
+        caller_divisions=s_divs,
+        map_snapper_via=rng.choice(("field", "ctor")),
+        divisions_as=rng.choice(("list", "tuple", "array")),
+        metro=metro,
+        init=rng.choice(INIT_FLOAT),
+        changes=[[str(p), b] for p, b in zip(pos, bpms)],  # position in beats from the first change, bpm
+        off_map_grid=off_map_grid,
+        list_order=order,
+        queries=queries,  # [index of the tempo change in force, beats after it]
+        jitter=[round(rng.uniform(0.01, 3), 6) for _ in queries],
+        container=rng.choice(("list", "tuple", "array")),
+        list_class=rng.choice(LIST_CLASSES),
+    )
+
+
+def run_grid_case(case):
+    import numpy as np
+
+    from reamber.algorithms.timing.TimingMap import TimingMap
+    from reamber.algorithms.timing.utils.BpmChangeOffset import BpmChangeOffset
+    from reamber.algorithms.timing.utils.BpmChangeSnap import BpmChangeSnap
+    from reamber.algorithms.timing.utils.Snapper import Snapper
+    from reamber.algorithms.timing.utils.snap import Snap
+
+    M = case["map_divisions"] or DEFAULT_LISTED
+    S = case["caller_divisions"] or DEFAULT_LISTED
+    metro = int(case["metro"])
+    init = Fraction(case["init"])
+    pos = [Fraction(p) for p, _ in case["changes"]]
+    bpm = [Fraction(repr(float(b))) for _, b in case["changes"]]
+    n = len(pos)
+    T = [init]
+    for k in range(n - 1):
+        T.append(T[-1] + (pos[k + 1] - pos[k]) * 60000 / bpm[k])
+    on_map_grid = all(_on(M, pos[k + 1] - pos[k]) for k in range(n - 1))
+    fam = "callers_snapper" if on_map_grid else "change_off_map_grid"
+    slow = float(min(bpm))
+
+    def given(divs):
+        return {"tuple": tuple(divs), "array": np.array(divs)}.get(case.get("divisions_as"), list(divs))
+
+    def new_snapper(divs):
+        return Snapper() if divs is None else Snapper(divisions=given(divs))
+
+    # ---- the queries asserted: on S's grid from the tempo change in force AND from the measure line
+    qs = []
+    for (k, rel), jit in zip(case["queries"], case["jitter"]):
+        rel = Fraction(rel)
+        p = pos[k] + rel
+        if not (_on(S, rel) and _on(S, p)) or (k < n - 1 and rel >= pos[k + 1] - pos[k]):
+            continue
+        if not on_map_grid and k < n - 1 and (pos[k + 1] - pos[k]) - rel < Fraction(2, max(M)):
+            # right in front of a change the map's own grid cannot place, a time has no position of its own on that grid
+            continue
+        qs.append((k, rel, T[k] + rel * 60000 / bpm[k], (int(p // metro), p % metro), jit))
+    all_qs = qs
+
+    def container(items):
+        if case["container"] == "tuple":
+            return tuple(items)
+        if case["container"] == "array":
+            return np.array(items)
+        return list(items)
+
+    fails = []
+
+    def observe(tm, con):
+        def bad(what, detail):
+            fails.append((f"{what}.{con}", detail))
+
+        # (a map made from POSITIONS works out the ms of its changes itself, in floats: a time meant to lie exactly on a later change may
+        # be one float step in front of it, i.e. in the section before, where it need not lie on the caller's grid - not asked there)
+        qs = [q for q in all_qs if not (con == "snap_form" and q[0] > 0 and q[1] == 0)]
+        times = [float(q[2]) for q in qs]
+        sn = new_snapper(case["caller_divisions"])
+        how = f"map snapper {case['map_divisions'] or 'default'}, snaps(.., Snapper({case['caller_divisions'] or 'default'}))"
+        try:
+            back = tm.snaps(container(times), sn)
+            again = tm.offsets(list(back))
+        except Exception as ex:
+            return bad("callers_snapper_completes", f"{how}: offsets(snaps({times})) raised {type(ex).__name__}: {ex}")
+        if len(back) != len(qs) or len(again) != len(qs):
+            return bad("callers_snapper_completes", f"{len(qs)} queries, {len(back)} positions, {len(again)} times")
+        if on_map_grid:
+            for i, q in enumerate(qs):
+                wm, wb = q[3]
+                if not (int(back[i].measure) == wm and abs(float(Fraction(back[i].beat) - wb)) <= TOL_BEAT):
+                    bad("ms_to_position_callers_snapper", f"{how}: query {i} = {times[i]} ms ({q[1]} beats after change {q[0]}) is measure {wm} beat {wb} by integration, snaps() gives measure {back[i].measure} beat {back[i].beat}")
+                    break
+        for i, q in enumerate(qs):
+            if not abs(float(again[i]) - times[i]) <= TOL_MS:
+                bad("grid_time_round_trip_" + fam, f"{how}: query {i} = {times[i]} ms ({q[1]} beats after change {q[0]}, measure {q[3][0]} beat {q[3][1]}) lies on the snap grid, ms -> position -> ms gives {float(again[i])} ms ({(float(again[i]) - times[i]) * float(bpm[q[0]]) / 60000} beats off)")
+                break
+        if not on_map_grid:
+            return
+        # ---- positions -> ms with the map's own snapper
+        try:
+            got = tm.offsets(container_snaps([Snap(q[3][0], q[3][1], metro) for q in qs]))
+        except Exception as ex:
+            return bad("position_to_ms_own_snapper", f"{how}: offsets() raised {type(ex).__name__}: {ex}")
+        for i, q in enumerate(qs):
+            if len(got) != len(qs) or not abs(float(got[i]) - times[i]) <= TOL_MS:
+                bad("position_to_ms_own_snapper", f"{how}: query {i} = measure {q[3][0]} beat {q[3][1]}: integration gives {times[i]} ms, offsets() {list(got)[i:i + 1]}")
+                break
+        # ---- cumulative beats: differences are the beat distance
+        try:
+            beats = tm.beats(container(times), sn)
+        except Exception as ex:
+            return bad("cumulative_beats_callers_snapper", f"{how}: beats({times}) raised {type(ex).__name__}: {ex}")
+        if len(beats) != len(qs):
+            return bad("cumulative_beats_callers_snapper", f"{len(qs)} queries, {len(beats)} results")
+        cum = [pos[q[0]] + q[1] for q in qs]
+        for i in range(len(qs)):
+            j = (i + 1) % len(qs)
+            if not abs(float(Fraction(beats[i]) - Fraction(beats[j])) - float(cum[i] - cum[j])) <= TOL_BEAT:
+                bad("cumulative_beats_callers_snapper", f"{how}: queries {i}, {j} ({times[i]} ms, {times[j]} ms): {float(cum[i] - cum[j])} beats apart by integration, beats() differ by {beats[i] - beats[j]}")
+                break
+        # ---- off the grid: back within 1/192 beat, for snappers at least as fine as 1/96
+        if max(S) >= 96:
+            off = [t + q[4] for t, q in zip(times, qs)]
+            try:
+                again = tm.offsets(list(tm.snaps(off, sn)))
+            except Exception as ex:
+                return bad("offgrid_time_round_trip_callers_snapper", f"{how}: offsets(snaps({off})) raised {type(ex).__name__}: {ex}")
+            for i, t in enumerate(off):
+                if not abs(float(again[i]) - t) <= 60000 / slow / 192 + TOL_MS:
+                    bad("offgrid_time_round_trip_callers_snapper", f"{how}: query {i}: {t} ms -> position -> {float(again[i])} ms, more than 1/192 beat at {slow} bpm away")
+                    break
+
+    def container_snaps(items):
+        if case["container"] == "tuple":
+            return tuple(items)
+        if case["container"] == "array":
+            a = np.empty(len(items), dtype=object)
+            for i, s in enumerate(items):
+                a[i] = s
+            return a
+        return list(items)
+
+    def with_own_snapper(tm):
+        if case["map_divisions"] is not None:
+            tm.snapper = new_snapper(case["map_divisions"])
+        return tm
+
+    def bco_list():
+        return [BpmChangeOffset(float(bpm[k]), metro, float(T[k])) for k in case["list_order"]]
+
+    def offset_form():
+        if case["map_divisions"] is not None and case["map_snapper_via"] == "ctor":
+            # (the dataclass constructor gets the list in time order: only the factory is documented to sort)
+            return TimingMap(bpm_changes_offset=sorted(bco_list(), key=lambda b: b.offset), snapper=new_snapper(case["map_divisions"]))
+        return with_own_snapper(TimingMap.from_bpm_changes_offset(bco_list()))
+
+    def bpm_list():
+        L, I = _list_class(case["list_class"])
+        return with_own_snapper(L([I(offset=float(T[k]), bpm=float(bpm[k]), metronome=metro) for k in case["list_order"]]).to_timing_map())
+
+    def snap_form():
+        lst = [BpmChangeSnap(float(bpm[k]), metro, Snap(int(pos[k] // metro), pos[k] % metro, metro)) for k in case["list_order"]]
+        return with_own_snapper(TimingMap.from_bpm_changes_snap(float(init), lst, reseat=False))
+
+    for con, build in (("offset_form", offset_form), ("bpm_list", bpm_list), ("snap_form", snap_form)):
+        if con == "snap_form" and not on_map_grid:
+            continue
+        try:
+            tm = build()
+        except Exception as ex:
+            fails.append((f"callers_snapper_construction_completes.{con}", f"{type(ex).__name__}: {ex}"))
+            continue
+        observe(tm, con)
+    return fails
+
+
+@bounded("C10", note="two grids at once: the map's own snapper (TimingMap.snapper) and the snapper handed to snaps() / beats() coarser or finer than the default and different from each other, tempo changes on positions only one of the grids allows; times on the caller's grid go ms -> position -> ms unchanged, positions / cumulative beats are those of exact integration")
+def engine_two_snapper_grids(rep):
+    rng = rep.rng
+    N = rep.n(300, 6000)
+    rep.bound = (
+        f"{N} seeded tempo lists of 1..4 changes given in ms (constant metronome 1..8, bpm from {list(GRID_BPM)}, initial offset from {list(INIT_FLOAT)}, handed over shuffled in half), with (map's snapper, caller's snapper): 35% (default, complete 1..k with k in 3..24), "
+        f"25% (default, fine: {[g if len(g) < 10 else '1..' + str(max(g)) for g in GRIDS_FINE]}), 15% (coarse or fine, default), 15% (any, any), 10% the same non-default one twice; the map's snapper given to the constructor or assigned to the field, divisions as list / tuple / numpy array; "
+        "every later change a whole number of beats (0..3 measures) + a fraction after the one before: 25% of the lists a fraction only the CALLER's grid allows (k + 1/192, k + 5/144 ... : class change_off_map_grid, only ms -> position -> ms asserted, not for times less than 2 grid steps in front of such a change), "
+        "otherwise a fraction the map's grid allows, in 60% chosen as a - q (a, q on the caller's grid) so that the change itself is NOT on the caller's grid while times q beats after it are (k + 1/8, k + 1/12, k + 1/32 against thirds / quarters / 192nds); "
+        "queries: up to 3 + the change itself per tempo section, each a fraction the caller's grid allows after the change in force AND at a position in the measure the caller's grid allows, 10% of the last section's 50..5000 measures on, duplicates, shuffled, list / tuple / numpy array; "
+        f"through from_bpm_changes_offset / TimingMap(...), {list(LIST_CLASSES)} BpmList.to_timing_map() and (changes on the map's grid) from_bpm_changes_snap(reseat=False)"
+    )
+    rep.rule = "a case is one (tempo list, map snapper, caller snapper, query multiset); non-trivial with >= 2 changes, >= 1 asserted query behind the first change and two different grids"
+    seen = {}
+    for _ in range(N):
+        if rep.out_of_time(20, 240):
+            break
+        case = gen_grid_case(rng)
+        later = any(k > 0 for k, _ in case["queries"])
+        rep.case(case, nontrivial=len(case["changes"]) >= 2 and later and case["map_divisions"] != case["caller_divisions"])
+        for key in ("off_map_grid" if case["off_map_grid"] else "on_map_grid", "map=" + ("default" if case["map_divisions"] is None else "own"), "caller=" + ("default" if case["caller_divisions"] is None else "own"), "later_section_queries" if later else "first_section_only"):
+            seen[key] = seen.get(key, 0) + 1
+        for what, det in run_grid_case(case):
+            rep.fail(what, case, det)
+    rep.extra["dimensions"] = seen
+
+
+@replayer("engine_two_snapper_grids")
+def _replay_grids(case, what):
+    hit = [d for w, d in run_grid_case(case) if w == what]
+    return (bool(hit), hit[0] if hit else "passes")
+
+
 # ============================================================================= Snapper
 
 
 DIVISION_SETS = (
-    [(1,), (2,), (3,), (4,), (7,), (16,), (48,), (96,), (2, 3), (3, 2), (4, 16), (16, 4), (5, 7), (12, 16, 24), (1, 2, 4, 8, 16), (16, 8, 4, 2, 1), (3, 6, 12, 24, 48), (9, 1, 5)]
+    [(1,), (2,), (3,), (4,), (7,), (16,), (48,), (96,), (2, 3), (3, 2), (4, 16), (16, 4), (5, 7), (12, 16, 24), (1, 2, 4, 8, 16), (16, 8, 4, 2, 1), (3, 6, 12, 24, 48), (9, 1, 5), (128,), (192,), (64, 192), (144, 3)]
 )
 
 
@@ -678,7 +998,7 @@ def snapper_divisions_and_values(rep):
     rng = rep.rng
     N = rep.n(600, 12000)
     rep.bound = (
-        f"{N} seeded (division set, value) pairs: 15% the default divisions, 40% complete sets 1..k (k in 1..24, any order, as tuple / list / numpy array / range), 45% from {len(DIVISION_SETS)} single / sparse / unordered sets; "
+        f"{N} seeded (division set, value) pairs: 15% the default divisions, 40% complete sets 1..k (k in 1..24, any order, as tuple / list / numpy array / range), 45% from {len(DIVISION_SETS)} single / sparse / unordered sets (coarser and finer - up to 1/192 - than the default); "
         "values on the grid, halfway between neighbours (+- 1e-7), just below 1, 0 and 1, random 6-digit decimals, whole part 0..123456; given as Fraction / float / numpy float / int; method and module function, the method twice"
     )
     rep.rule = "a case is one (division set, value); every case is non-trivial"
